@@ -28,6 +28,20 @@ def _solve(i_timeout):
     i, timeout_ms, seed = i_timeout
     ob = _OBS[i]
     t0 = time.time()
+    if ob.view == "custom":
+        try:
+            r = ob.custom()
+        except Exception as e:
+            import traceback
+            r = {"result": "unknown", "reason": "custom procedure failed: %r %s" % (e, traceback.format_exc(limit=4))}
+        r.setdefault("backend", "exact polynomial arithmetic (pyvc.stepalg)")
+        r.setdefault("time_s", round(time.time() - t0, 4))
+        return i, r
+    if ob.view == "value" and ob.expect == "unsat":
+        from . import valueview
+        r = valueview.prove(ob.pc, ob.hyps, ob.goal, timeout_s=max(30, timeout_ms / 1000.0 * 3))
+        if not (r["result"] == "unknown" and "not a value goal" in r.get("reason", "")):
+            return i, r
     s = z3.Solver()
     s.set("timeout", timeout_ms)
     s.set("random_seed", seed)
